@@ -2,7 +2,10 @@
 
 package prototext
 
-import "google.golang.org/protobuf/reflect/protoreflect"
+import (
+	"google.golang.org/protobuf/encoding/protowire"
+	"google.golang.org/protobuf/reflect/protoreflect"
+)
 
 // Contracts for the text decoder's field-uniqueness protocol (property C26).
 //
@@ -21,4 +24,63 @@ import "google.golang.org/protobuf/reflect/protoreflect"
 func contract_decoder_unmarshalMessage(d decoder, m protoreflect.Message, checkDelims bool) (err error) {
 	modifiesAll()
 	return
+}
+
+// ---------------------------------------------------------------- unknown fields in text output (C25)
+
+// specUnknownOK: b is a syntactically valid unknown-field set: a sequence of fields, each a tag
+// followed by the value its wire type announces (protowire's grammar, nesting budget as in
+// protowire.ConsumeFieldValue).
+//
+// @ opaque
+func specUnknownOK(b []byte) bool {
+	if len(b) == 0 {
+		return true
+	}
+	tn := protowire.SpecTagLen(b)
+	if tn < 0 {
+		return false
+	}
+	vn := protowire.SpecValueLen(protowire.Number(protowire.SpecVarintVal(b, tn)>>3), protowire.Type(protowire.SpecVarintVal(b, tn)&7), b[tn:])
+	if vn < 0 || tn+vn > len(b) {
+		return false
+	}
+	return specUnknownOK(b[tn+vn:])
+}
+
+// marshalUnknown renders every syntactically valid unknown-field set without panicking: it never
+// slices outside b, and the "error parsing unknown field wire type" panic is unreachable. The
+// text.Encoder calls have no contract (their results do not matter here). For a group the function
+// recurses on the group's content; that the content of a valid group is itself a valid field
+// sequence is the precondition of the recursive call and is NOT proved here (it needs an induction
+// over protowire's group grammar including non-minimal end tags): that obligation stays unclaimed.
+//
+// @ props C25
+// @ mode int
+// @ abstract protowire.specVarintLen protowire.specVarintVal protowire.specTagLen protowire.specBytesLen
+// @ loop 1 invariant suffixOf(b, old(b)) && specUnknownOK(b)
+// @ loop 1 lemma lemma_unknownStep(b)
+func contract_encoder_marshalUnknown(e encoder, b []byte) {
+	requires(specUnknownOK(b))
+	modifiesPtr(e.Encoder)
+	return
+}
+
+// One step of the field-sequence grammar, in the terms the protowire Consume contracts use.
+//
+// @ props C25
+// @ mode int
+func lemma_unknownStep(b []byte) {
+	requires(len(b) > 0 && specUnknownOK(b))
+	tn := protowire.SpecTagLen(b)
+	num := protowire.Number(protowire.SpecVarintVal(b, tn) >> 3)
+	typ := protowire.Type(protowire.SpecVarintVal(b, tn) & 7)
+	ensures(0 < tn && tn <= len(b))
+	vn := protowire.SpecValueLen(num, typ, b[tn:])
+	ensures(vn >= 0 && specUnknownOK(b[tn+vn:]))
+	ensures(typ == protowire.VarintType || typ == protowire.Fixed32Type || typ == protowire.Fixed64Type || typ == protowire.BytesType || typ == protowire.StartGroupType)
+	ensures(imp(typ == protowire.VarintType, vn == protowire.SpecVarintLen(b[tn:])))
+	ensures(imp(typ == protowire.Fixed32Type, vn == 4 && len(b)-tn >= 4))
+	ensures(imp(typ == protowire.Fixed64Type, vn == 8 && len(b)-tn >= 8))
+	ensures(imp(typ == protowire.BytesType, vn == protowire.SpecBytesLen(b[tn:])))
 }
